@@ -32,9 +32,9 @@ var pool = []text{
 	{"gsub.yang", `submodule gsub { belongs-to gm { prefix gm; } import g { prefix g; } typedef st { type g:t; } container sc { leaf sl { type st; } uses g:gg; } }`, "gsub", true},
 	{"syntax.yang", `module s { ` + H("s") + ` leaf l { type string; }`, "", false},
 	{"b1.yang", `module b1 { ` + H("b1") + ` typedef bt { type nosuch; } bogus x; }`, "", false},
-	{"b2.yang", `module b2 { ` + H("b2") + ` container c { typedef bt2 { type int8; } } identity bi; leaf l { type string; } leaf m { bogus y; } }`, "", false},
+	{"b2.yang", `module b2 { ` + H("b2") + ` container c { typedef bt2 { type int8; } typedef bt3 { type string { length "10..1"; } } } grouping bg { typedef bt4 { type nosuch; } typedef bt5 { type g:t; } leaf bgl { type bt4; } } rpc brpc { input { typedef bt6 { type bt6; } } } identity bi; leaf l { type string; } leaf m { bogus y; } }`, "", false},
 	{"gdup.yang", `module g { ` + H("g") + ` leaf other { type string; } typedef t { type int64; } }`, "g", true},
-	{"nomand.yang", `module nm { prefix nm; typedef z { type int8; } }`, "", false},
+	{"nomand.yang", `module nm { prefix nm; typedef z { type int8; } container nc { typedef nz { type int8 { range "5..1"; } } list nl { typedef nz2 { type nosuch2; } key k; leaf k { type nz2; } } } }`, "", false},
 }
 
 const (
